@@ -3104,6 +3104,31 @@ func ruleP13DateOrder(p *Prog, r *Report) {
 				}
 			}
 		}
+		if undecided != "" && len(f.Params) == 2 {
+			// written through other functions of the module (a three-way compareTo, a
+			// compareInts(x, y)): the same 27 cases, followed into those functions
+			bad2, all := "", true
+			for sy := -1; sy <= 1 && all; sy++ {
+				for sm := -1; sm <= 1 && all; sm++ {
+					for sd := -1; sd <= 1 && all; sd++ {
+						env := map[ssa.Value]cmpSym{f.Params[0]: {true, 1, ""}, f.Params[1]: {true, -1, ""}}
+						got, ok := simCmpGeneric(f, env, map[string]int{"Year": sy, "Month": sm, "Day": sd}, 0)
+						if !ok {
+							all = false
+							break
+						}
+						if (got != 0) != want(sy, sm, sd) && bad2 == "" {
+							rel := func(s int) string { return map[int]string{-1: "<", 0: "=", 1: ">"}[s] }
+							bad2 = fmt.Sprintf("for year %s, month %s, day %s it answers %v", rel(sy), rel(sm), rel(sd), got != 0)
+						}
+					}
+				}
+			}
+			if all {
+				r.check(bad2 == "", rule, m, p.pos(f.Pos()), m+" is the lexicographic comparison of (year, month, day) in all 27 cases (followed through the functions it calls)", m+" is not the lexicographic comparison of (year, month, day): "+bad2)
+				continue
+			}
+		}
 		if undecided != "" {
 			// a single numeric key per date
 			if okKey, whyKey := dateKeyComparison(p, f, m); okKey {
